@@ -23,6 +23,9 @@ class Source:  # a value object: the two instances used below compare (and hash)
     a = Signal(Ev)
     b = Signal(Ev)
 
+    def __len__(self):  # ... and a container that is currently empty: instances are falsy
+        return 0
+
 
 QSIZES = [(1, 2), (0, 2)]  # distinct per stream: a SignalQueueFull warning names the queue size; 0 = hand-off only
 QSIZE = [1, 2]  # set per scenario
